@@ -49,6 +49,9 @@ func c17Hooks(xr *xssRoots, name string, hooks *absint.Hooks) {
 		if prevStore != nil {
 			prevStore(e, st, fr, store, p, v)
 		}
+		if fa, ok := store.Addr.(*ssa.FieldAddr); ok && fieldName(fa) == xr.field("xss.state.state") {
+			e.SetCell(st, ghostScan, "stateFrame", absint.IntV{L: absint.K(int64(ownerOf(fr).ID()))})
+		}
 		if fa, ok := store.Addr.(*ssa.FieldAddr); ok && fieldName(fa) == lenFld {
 			e.SetCell(st, ghostScan, "lenFrame", absint.IntV{L: absint.K(int64(ownerOf(fr).ID()))})
 		}
@@ -117,6 +120,24 @@ func c17Hooks(xr *xssRoots, name string, hooks *absint.Hooks) {
 			return
 		}
 		where := retLabel(ret)
+		handsOver := false
+		if len(ret.Results) == 1 {
+			if call, isCall := ret.Results[0].(*ssa.Call); isCall {
+				if cal := call.Call.StaticCallee(); cal != nil && xr.env.p.InModule(cal) {
+					handsOver = true // the state it hands over to is judged at its own returns
+				}
+			}
+		}
+		if !handsOver && xr.g.Nodes[fr.Fn()] != nil {
+			// T-next: a step that reports a token has chosen the next state itself
+			chose := false
+			if sc, ok := e.CellOf(st, ghostScan, "stateFrame"); ok {
+				if f, isC := absint.ConstOf(sc); isC && f == int64(fr.ID()) {
+					chose = true
+				}
+			}
+			e.Check(st, fr, ret.Pos(), "T-next", "the step that reports a token chooses the next state at "+where, chose, "a token is reported but the state variable was not written in this step: the next step runs whatever state an earlier step chose, at a cursor it was not chosen for")
+		}
 		H, in := rc.H, rc.In
 		ts, ok1 := e.CellOf(st, H, xr.field("xss.state.tokenStart"))
 		tl, ok2 := e.CellOf(st, H, lenFld)
@@ -250,7 +271,7 @@ func checkC17(c *Ctx) *core.Result {
 	xr.runAll(func(name string, hooks *absint.Hooks) { c17Hooks(xr, name, hooks) })
 	residuals := loadResiduals(c, r)
 	obs := mergeObs(xr.runs)
-	own := map[string]bool{"T-span": true, "T-order": true, "O-first": true, "O-resume": true, "O-end": true, "O-eof": true, "O-next": true, "O-match": true, "I-post": true}
+	own := map[string]bool{"T-next": true, "T-span": true, "T-order": true, "O-first": true, "O-resume": true, "O-end": true, "O-eof": true, "O-next": true, "O-match": true, "I-post": true}
 	n := emitObs(r, obs, residuals, "C17", func(o *absint.Ob) bool {
 		return own[o.Rule] && strings.HasPrefix(o.Fn, env.a.TypeName("xss.state")+".")
 	})
